@@ -404,6 +404,9 @@ pub fn check(rec: &RunRecord, reg: &Reg, which: &ReplyMonitors, cells: &mut Cell
                     }
                 } else {
                     let (_, args, ctx) = mine[0];
+                    if !pay_ok {
+                        out.push(Finding::new("C07", "c07.entered_on_bad_payload", op.idx, format!("{}: {} ran although the delivered payload {} cannot be decoded into its payload parameters (got {})", d.cid(), m.id(), reply["payload"], args)));
+                    }
                     if ctx["gas_used"] != reply["gas_used"] {
                         out.push(Finding::new("C07", "c07.gas_used", op.idx, format!("{}: {} saw gas_used {} but {} was delivered", d.cid(), m.id(), ctx["gas_used"], reply["gas_used"])));
                     }
@@ -445,6 +448,13 @@ pub fn check(rec: &RunRecord, reg: &Reg, which: &ReplyMonitors, cells: &mut Cell
                 // a payload made by the generated builder must reach the method's payload parameters
                 if builds.iter().any(|(cid, _, output)| *cid == d.cid() && output["payload"] == reply["payload"] && output["id"] == reply["id"]) {
                     out.push(Finding::new("C08", "c08.roundtrip_lost", op.idx, format!("{}: the payload built by `{name}`'s builder was not delivered to {}: the reply returned {}", d.cid(), m.id(), res)));
+                }
+            }
+            if which.c08 && !mine.is_empty() && r.payload_raw {
+                // a raw payload reaches the method byte for byte, whoever made the sub-message
+                let (_, args, _) = mine[0];
+                if args["payload"] != rt::bb::bytes_text(&payload) {
+                    out.push(Finding::new("C08", "c08.delivered_raw", op.idx, format!("{}: {} got the raw payload {} but {} was delivered", d.cid(), m.id(), args["payload"], rt::bb::bytes_text(&payload))));
                 }
             }
             if which.c08 && !mine.is_empty() {
